@@ -140,19 +140,7 @@ def dict_seq(I: Interp, d: SV, kind) -> Seq:
     kty = ty.a[0] if ty.a else T.ANY
     vty = ty.a[1] if ty.k == "dict" and len(ty.a) > 1 else T.ANY
     has = z3.Select(st.arr("dhas"), r)
-    # well-formedness of the key sequence (assumed; established by dict_set for literals)
-    a, b = z3.Ints(f"a!dk{st.n_fresh} b!dk{st.n_fresh}")
-    st.n_fresh += 1
-    K = st.cfg.get("ground")
-    if K:
-        st.assume(n <= K)
-        for x in range(K):
-            st.assume(z3.Implies(x < n, z3.Select(has, z3.Select(keys, x))))
-            for y in range(x + 1, K):
-                st.assume(z3.Implies(y < n, z3.Select(keys, x) != z3.Select(keys, y)))
-    else:
-        st.assume(z3.ForAll([a], z3.Implies(z3.And(a >= 0, a < n), z3.Select(has, z3.Select(keys, a)))))
-        st.assume(z3.ForAll([a, b], z3.Implies(z3.And(a >= 0, a < b, b < n), z3.Select(keys, a) != z3.Select(keys, b))))
+    I.assume_dict_wf(SV(d.t, ty if ty.k in ("dict", "set") else T.DICT()))
 
     def item(i):
         k = SV(smt.simp(z3.Select(keys, i)), kty)
@@ -407,7 +395,7 @@ def check_frame(I: Interp, base_heap: dict, base_alloc, mods, sf: Frame, kind: s
         return
     r = z3.Int("r!frame")
     for key, cur in list(st.heap.items()):
-        if key == "cls" or key.startswith("g:") or key.startswith("__"):
+        if key in ("cls", "ctag") or key.startswith("g:") or key.startswith("__") or key.startswith("f:$"):
             continue
         old = base_heap.get(key)
         if old is None:
